@@ -447,14 +447,17 @@ class Stream:
 
 
 def run_impl(stream, case):
-    try:
-        return with_alarm(stream.impl_timeout, stream.impl, case)
-    except Timeout:
-        return ["impl-timeout"]
-    except RecursionError:
-        return ["impl-exception", "RecursionError"]
-    except Exception as e:  # noqa  an exception the stream did not expect: part of the observation
-        return ["impl-exception", type(e).__name__]
+    # a time-out may be the machine's load, not the code: one more try with a much longer bound before it counts
+    for bound in (stream.impl_timeout, max(60.0, 8 * stream.impl_timeout)):
+        try:
+            return with_alarm(bound, stream.impl, case)
+        except Timeout:
+            continue
+        except RecursionError:
+            return ["impl-exception", "RecursionError"]
+        except Exception as e:  # noqa  an exception the stream did not expect: part of the observation
+            return ["impl-exception", type(e).__name__]
+    return ["impl-timeout"]
 
 
 def run_stream(stream, rng, tier, findings, budget_scale=1.0):
